@@ -109,7 +109,7 @@ def run(tier="quick", only_key=None):
                     at = loc(cls.find("_build_linear_operator") or cls.find("__init__"))
                     pos = catalog.positional_args(cls, D)
                     try:
-                        o = it.call(cls, pos, kw)
+                        o = catalog.construct(it, cls, pos, kw)
                     except RepoRaise as e:
                         ck.fail("symbol", key, f"{e.file}:{getattr(e.node, 'lineno', '?')}", f"constructor raises {e.exc_name} for a documented configuration")
                         continue
